@@ -152,6 +152,12 @@ def run(ctx: Ctx, rs: RuleSet, tier: str):
              else 'the expansion of factories in containers is called '
              'directly at build time', ctx.loc(f, n))
 
+  # ---- premise: call_buildable hands (args, kwargs) to __build__ unchanged
+  # (a re-binding would turn configured keywords into positionals of the
+  # functools.partial, which a call-time keyword can then no longer override)
+  from fdlstatic.rules import c01
+  c01.delegation(ctx, rs)
+
   # ---- PARTITION in _build_partial
   rule = 'PARTITION.kwargs-layers'
   rs.declare(rule, 'keywords are split by complementary predicates; the '
